@@ -10,5 +10,7 @@ CONSTANTS
   SizeRotate = FALSE
   WalRemoveAnyOrder = FALSE
   RecFinishRenameFirst = FALSE
+  Async = FALSE
+  RotateDropsBuffer = FALSE
 INVARIANTS Report
 CHECK_DEADLOCK FALSE
